@@ -23,6 +23,9 @@ func init() {
 		Assumptions: []string{"JSON-RPC interactions never carry pathVariables (the catalog format has none for them)"},
 		Families: []fw.Family{
 			{Name: "trees", N: constN(2500, 80000), Gen: genModelCase, Eval: c13Eval},
+			{Name: "shared-path-file", N: constN(800, 25000), Gen: func(r *xrand.Rand, idx int, tier string) *fw.Case {
+				return &fw.Case{Docs: []run.Doc{{}}}
+			}, Eval: c13EvalShared},
 		},
 		Floors: map[string]int64{"catalogs_compared": 1500, "path_variable_sets_checked": 4000, "faulty_variants_checked": 8000},
 	})
@@ -127,6 +130,9 @@ func c13Model(r *xrand.Rand) (*gen.Model, string) {
 			for k := r.Range(1, 3); k > 0; k-- {
 				me := &gen.Method{Verb: verbs[perm[k]], Path: p, Responses: []*gen.Response{{Code: "200", Body: gen.Body{Form: "any"}}}}
 				if r.Chance(1, 3) {
+					me.Description, me.DescFirst = []string{"about this method", "second line"}, true
+				}
+				if r.Chance(1, 3) {
 					me.PathDecl = declFor(p)
 					if me.PathDecl != nil {
 						sites += "m"
@@ -137,6 +143,9 @@ func c13Model(r *xrand.Rand) (*gen.Model, string) {
 			blocks = append(blocks, b)
 		} else {
 			me := &gen.Method{Verb: verbs[r.Intn(5)], Path: p, OwnPath: true, Responses: []*gen.Response{{Code: "200", Body: gen.Body{Form: "any"}}}}
+			if r.Chance(1, 3) {
+				me.Description, me.DescFirst = []string{"about this method"}, true
+			}
 			if r.Chance(1, 2) {
 				me.PathDecl = declFor(p)
 				if me.PathDecl != nil {
@@ -227,4 +236,58 @@ func c13Eval(t *fw.T, c *fw.Case) {
 			t.Violation("path-fault-runtime:"+v.kind, describe(ov))
 		}
 	}
+}
+
+
+// c13EvalShared: a Path declaration kept in one file that several hosts include (the usual way to share "{id}"):
+// every host's interactions must get the parameter, exactly as if the text stood in place.
+func c13EvalShared(t *fw.T, c *fw.Case) {
+	r := xrand.Derive(t.Seed, c.Index, "C13", "shared")
+	k := r.Range(2, 4)
+	inMethod := r.Bool()
+	val := []string{"12", "\"abc\"", "@pid"}[r.Intn(3)]
+	nl := []string{"\n", "\n", "\r\n", "\r"}[r.Intn(4)]
+	var shared string
+	if inMethod {
+		shared = "GET\n  Path\n  {\n    \"id\": " + val + " // the id\n  }\n  200 any\n"
+	} else {
+		shared = "Path\n{\n  \"id\": " + val + "\n}\n"
+	}
+	var root strings.Builder
+	root.WriteString("JSIGHT 0.3\nTYPE @pid\n  7\n")
+	var keys []string
+	for i := 0; i < k; i++ {
+		root.WriteString(fmt.Sprintf("URL /s%d/{id}\n  INCLUDE shared.jst\n", i))
+		if !inMethod {
+			root.WriteString("  GET\n    200 any\n")
+		}
+		keys = append(keys, fmt.Sprintf("http GET /s%d/{id}", i))
+	}
+	conv := func(x string) []byte { return []byte(strings.ReplaceAll(x, "\n", nl)) }
+	pad := ""
+	for _, l := range strings.Split(strings.TrimRight(shared, "\n"), "\n") {
+		pad += "  " + l + "\n"
+	}
+	d := run.Doc{Files: map[string][]byte{"root.jst": conv(root.String()), "shared.jst": conv(pad)}, Root: "root.jst"}
+	c.Docs = []run.Doc{d}
+	o := t.Exec(d)
+	t.Count("shared_path_projects")
+	if o.Outcome != run.Accepted {
+		t.Violation("valid-path-tree-rejected:shared-file:"+outcomeSig(o), fmt.Sprintf("a Path kept in a file that %d URL blocks include is not accepted: %s\n%s--- shared.jst\n%s", k, describe(o), root.String(), pad))
+		return
+	}
+	doc, err := jsonx.Parse(o.JSON)
+	if err != nil {
+		return
+	}
+	for _, key := range keys {
+		t.Count("path_variable_sets_checked")
+		pv := doc.Root.Get("interactions").Get(key).Get("pathVariables")
+		ch := pv.Get("schema").Get("content").Get("children").Arr0()
+		if pv == nil || len(ch) != 1 || ch[0].Get("key").S() != "id" {
+			t.Violation("path-variables-differ:shared-file", fmt.Sprintf("interaction %q does not get the parameter declared in the shared file\n%s--- shared.jst\n%s", key, root.String(), pad))
+			return
+		}
+	}
+	t.Distinct(fmt.Sprintf("shared k%d method%v", k, inMethod))
 }
